@@ -220,6 +220,17 @@ func bfs(ctx *SeqCtx, alphabet []string, depth int, exec func(hist []int) (claus
 		}
 		return out
 	}
+	bonus := false
+	var saved time.Time
+	defer func() {
+		if bonus {
+			ctx.deadline = saved
+			if ctx.st.TimedOut && ctx.viol == nil {
+				ctx.st.TimedOut = false
+				ctx.st.BonusTimedOut = true
+			}
+		}
+	}()
 	for d := 1; d <= depth; d++ {
 		var next [][]int
 		for _, h := range frontier {
@@ -249,6 +260,19 @@ func bfs(ctx *SeqCtx, alphabet []string, depth int, exec func(hist []int) (claus
 		frontier = next
 		if len(frontier) == 0 {
 			break
+		}
+		// bonus: one more level on a separate, short time budget once the required depth is complete; a level
+		// that is not finished leaves depth_completed (and the verdict for the required depth) as it is
+		if d == depth && !bonus && BonusBudget > 0 && ctx.viol == nil && !ctx.st.TimedOut {
+			bonus = true
+			saved = ctx.deadline
+			bd := time.Now().Add(BonusBudget)
+			if !saved.IsZero() && saved.Before(bd) {
+				bd = saved
+			}
+			ctx.deadline = bd
+			ctx.st.BonusBound = d + 1
+			depth++
 		}
 	}
 }
